@@ -208,6 +208,77 @@ space after commas lost all of its data."""),
 direct_parse_key counted [ ] { } and escaped quotes inside string literals, so
 an ID or metadata value containing one of them made the command fail."""),
 
+ ("json-slicer-empty-data", [
+  (P, """    for rcv in data.split('],'):
+        r, c, v = strip_f(rcv).split(',')
+        if r in remap_lookup:
+            new_data.append(_remap_axis_sparse_obs(rcv, remap_lookup))
+    return '[[%s]]' % '],['.join(new_data)""", """    for rcv in data.split('],'):
+        if not strip_f(rcv):
+            continue
+        r, c, v = strip_f(rcv).split(',')
+        if r in remap_lookup:
+            new_data.append(_remap_axis_sparse_obs(rcv, remap_lookup))
+    if not new_data:
+        return '[]'
+    return '[[%s]]' % '],['.join(new_data)"""),
+  (P, """    for rcv in data.split('],'):
+        r, c, v = map(strip_f, rcv.split(','))
+        if c in remap_lookup:
+            new_data.append(_remap_axis_sparse_samp(rcv, remap_lookup))
+    return '[[%s]]' % '],['.join(new_data)""", """    for rcv in data.split('],'):
+        if not strip_f(rcv):
+            continue
+        r, c, v = map(strip_f, rcv.split(','))
+        if c in remap_lookup:
+            new_data.append(_remap_axis_sparse_samp(rcv, remap_lookup))
+    if not new_data:
+        return '[]'
+    return '[[%s]]' % '],['.join(new_data)"""),
+ ], """fix: subset-table on JSON failed when the selection had no non-zero data
+
+A table (or a selection of IDs) without any non-zero entry made the JSON
+slicer crash on the empty data list, or emit "data": [[]], which cannot be
+loaded.  Emit an empty data list instead."""),
+
+ ("json-slicer-string-values", [
+  (P, """    if biom_str[cur_idx] not in JSON_OPEN:
+        # do we have a number?""", """    if biom_str[cur_idx] == QUOTE:
+        # a string: runs to the closing quote, whatever it contains
+        cur_idx += 1
+        while biom_str[cur_idx] != QUOTE:
+            if biom_str[cur_idx] == '\\\\':
+                cur_idx += 1
+            cur_idx += 1
+        cur_idx += 1
+
+    elif biom_str[cur_idx] not in JSON_OPEN:
+        # do we have a number?"""),
+ ], """fix: subset-table JSON scanner cut string values at a comma or brace
+
+A top-level string value (table id, generated_by, ...) was scanned like a
+number, up to the next ',', '{' or '}', so a value such as
+"generated_by": "QIIME 1.9.1, biom 2.1" was truncated and the command wrote
+malformed JSON."""),
+
+ ("json-slicer-literals", [
+  (P, """    "{",
+    "[",
+    '"',
+}""", """    "{",
+    "[",
+    '"',
+    "-",
+    "n",
+    "t",
+    "f",
+}"""),
+ ], """fix: subset-table JSON scanner skipped null, true, false and negative values
+
+A value such as "type": null did not start with a recognised token, so the
+scanner ran on to the next quote and returned the following key as part of
+the value."""),
+
  ("validator-dup-ids", [
   (V, """                result = method(row)
                 if len(result) > 0:
@@ -406,7 +477,7 @@ def main():
         m = re.search(r"(\d+) passed", res)
         f = re.search(r"(\d+) failed", res)
         nf = int(f.group(1)) if f else 0
-        if not m or int(m.group(1)) < 372 or nf > 5:
+        if not m or int(m.group(1)) + nf < 377 or nf > 5:
             print("!! suite regressed; leaving working tree for inspection")
             return 1
         r = subprocess.run(["git", "commit", "-qam", msg], cwd="/repo")
